@@ -653,13 +653,22 @@ def method_class(ms):
     return "+".join(parts) or "none"
 
 
+def route_of(model, entry, cid):
+    """The route registered with handler `cid` inside the table of the request (packs reuse handlers)."""
+    rs = model.by_cid.get(cid) or [None]
+    for r in rs:
+        if r is not None and table_level(model, entry, r.node) not in ("foreign-table", "pack-root"):
+            return r
+    return rs[0]
+
+
 def violation_key(model, entry, exp, outcome):
     p = exp.primary
     dom_tag = ":domain" if entry["table"]["dom"] != "none" else ""
 
     def obs_class():
         if outcome.startswith("h:"):
-            r = model.by_cid.get(outcome[2:], [None])[0]
+            r = route_of(model, entry, outcome[2:])
             return f"handler-{shape(r.segs)}" if r else "handler-unknown"
         if outcome.startswith("f:"):
             return "fallback-" + table_level(model, entry, model.fb_node.get(outcome.split(":")[1]))
@@ -674,14 +683,14 @@ def violation_key(model, entry, exp, outcome):
             st = "?"
         return f"route:unexpected-response:status-{st}:expected-{exp.kind}"
     if p[0] == "h":
-        er = model.by_cid[p[1]][0]
+        er = route_of(model, entry, p[1])
         if outcome.startswith("h:"):
-            gr = model.by_cid.get(outcome[2:], [None])[0]
+            gr = route_of(model, entry, outcome[2:])
             if gr is not None and gr.key == er.key and gr.domain == er.domain:
                 return f"route:wrong-handler:same-path:exp-{er.mk}:got-{gr.mk}{dom_tag}"
             return f"route:wrong-handler:{shape(er.segs)}-vs-{shape(gr.segs) if gr else 'unknown'}{dom_tag}"
         lvl = table_level(model, entry, er.node)
-        return f"route:handler-not-invoked:{shape(er.segs)}:{er.mk}:at-{lvl}:got-{obs_class()}{dom_tag}"
+        return f"route:handler-not-invoked:{shape(er.segs)}:at-{lvl}:got-{obs_class()}{dom_tag}"
     # a fallback was expected
     _, fb, allowed = p
     if outcome.startswith("h:"):
@@ -703,6 +712,8 @@ def violation_key(model, entry, exp, outcome):
         got_lvl = obs_class().replace("fallback-", "")
         return f"route:wrong-fallback:{exp.kind}:exp-{exp_lvl}:got-{got_lvl}{extra}{dom_tag}"
     # same fallback, different AllowedMethods / status
+    if exp.kind in ("nomatch", "domain-miss") and outcome.startswith("d:405"):
+        return f"route:405-although-no-path-matches:{exp.kind}{dom_tag}"
     got_allowed = outcome.split(":", 2)[2]
     got = set(x for x in got_allowed.split("+") if x) if got_allowed != "ALL" else {"ALL"}
     want = set(allowed or [])
@@ -821,8 +832,9 @@ def observe(tier):
         if spent + est > budget_s and accepted:
             keep = max(1, int(len(accepted) * max(0.0, budget_s - spent) / est))
             if keep < len(accepted):
+                # an evenly strided subset of the enumeration order, so that every slice is still reached
                 caps["accepted_tables_not_served_due_to_time_budget"] = len(accepted) - keep
-                accepted = accepted[:keep]
+                accepted = [accepted[(j * len(accepted)) // keep] for j in range(keep)]
     # a few tables are also compiled alone, so that the mechanisms a pack cannot reach (custom fallback
     # of the root blueprint of a domain-agnostic router) are exercised: the first accepted table of every
     # (structure, fallback in {root, both}) combination without domains
